@@ -4,6 +4,7 @@ from __future__ import annotations
 import ast
 from typing import Any
 
+from ..boolform import inline_locals
 from ..model import AnalysisError, RegexConst, norm_src, walk_no_nested
 from ..pathq import fq
 from ..report import Ctx
@@ -123,6 +124,8 @@ def rule_twin_indexing(ctx: Ctx, rule: str) -> None:
                 if not isinstance(sub, ast.Subscript):
                     continue
                 base = sub.value
+                if isinstance(base, ast.Name) and base.id not in names_by_mod.get(m.name, ()):
+                    base = inline_locals(fi.node, base)  # a local that names one of the twins
                 # (A if c else B)[k]
                 cands = [base.body, base.orelse] if isinstance(base, ast.IfExp) else [base]
                 tw = []
@@ -154,7 +157,7 @@ def rule_twin_indexing(ctx: Ctx, rule: str) -> None:
                     continue
                 ok, why = _var_index_ok(repo, fi, q, sub.slice)
                 ctx.ob(rule, key, ok, site, 'index variable = util.BYTES iff the value is bytes', why, witness=witness)
-    ctx.floor(rule, 'twin subscripts', n, 30)
+    ctx.floor(rule, 'twin subscripts', n, 20)
 
 
 def _var_index_ok(repo: Any, fi: Any, q: Any, idx: ast.AST) -> tuple[bool, str]:
@@ -178,7 +181,7 @@ def _defs_ok(q: Any, defs: list, name: str) -> tuple[bool, str]:
     for d in defs:
         v = d.value
         if isinstance(v, ast.IfExp):
-            t = norm_src(v.test)
+            t = norm_src(inline_locals(q.fi.node, v.test))
             b, o = norm_src(v.body), norm_src(v.orelse)
             if _is_bytes_test(t) and b in ('util.BYTES', '1') and o in ('util.UNICODE', '0'):
                 continue
@@ -198,65 +201,93 @@ def _defs_ok(q: Any, defs: list, name: str) -> tuple[bool, str]:
 
 
 def rule_latin1_pairing(ctx: Ctx, rule: str) -> None:
-    ctx.text(rule, 'WcParse.parse, WcSplit.split, _GlobSplit.split: bytes input is decoded with one codec literal and every '
-                   'value leaving the function (return, yield, store argument, _GlobPart field) is encoded with the same '
-                   'literal; the str path is not transcoded')
+    ctx.text(rule, 'WcParse.parse, WcSplit.split, _GlobSplit.split (decision tables / per-site slices, argument values): with a bytes '
+                   "pattern the text is decoded with 'latin-1' once and every value leaving the function (return, yield, store "
+                   "argument, _GlobPart field) is a bytes constant or ends in .encode('latin-1'); with a str pattern nothing is "
+                   'transcoded and nothing bytes leaves')
+    from .common import api_table, site_events
+    from ..symeval import Tok, _tag, focus
     repo = ctx.repo
     n_out = 0
-    for mod, qn in ((WP, 'WcParse.parse'), (WP, 'WcSplit.split'), ('glob', '_GlobSplit.split')):
-        fi = repo.func(mod, qn)
-        q = fq(fi)
-        codecs = set()
-        dec = enc = 0
-        for c in walk_no_nested(fi.node):
-            if isinstance(c, ast.Call) and isinstance(c.func, ast.Attribute) and c.func.attr in ('decode', 'encode'):
-                codecs.add(norm_src(c.args[0]) if c.args else '<default>')
-                if c.func.attr == 'decode':
-                    dec += 1
-                else:
-                    enc += 1
-        ctx.ob(rule, f'{mod}:{qn}/codec', codecs == {"'latin-1'"} and dec >= 1 and enc >= 1, repo.loc(mod, fi.node),
-               "one codec literal 'latin-1', used for decode and encode", f'codecs={sorted(codecs)} decode={dec} encode={enc}',
-               witness="fnmatch(b'\\xe9', b'[\\xe0-\\xff]') must be True: every byte must survive the round trip")
-        # decode only under the bytes test
-        for c in walk_no_nested(fi.node):
-            if isinstance(c, ast.Call) and isinstance(c.func, ast.Attribute) and c.func.attr == 'decode':
-                g = q.guards(c)
-                ok = any(_is_bytes_test(t) and p == 'T' for t, p in g)
-                ctx.ob(rule, f'{mod}:{qn}/decode-under-bytes-test', ok, repo.loc(mod, c), 'decode only when the input is bytes',
-                       f'guards {sorted(g)}')
-        if qn == 'WcParse.parse':
-            rets = [s for s in walk_no_nested(fi.node) if isinstance(s, ast.Assign) and 'decode' in norm_src(s.value)]
-            for s in rets:
-                n_out += 1
-                v = s.value
-                ok = isinstance(v, ast.Call) and isinstance(v.func, ast.Attribute) and v.func.attr == 'encode'
-                ctx.ob(rule, f'{mod}:{qn}/out@{n_out}', ok, repo.loc(mod, s), 'parsed text re-encoded', norm_src(s)[:80],
-                       witness="fnmatch.translate(b'a') must return bytes regexes")
-        elif qn == 'WcSplit.split':
-            for y in walk_no_nested(fi.node):
-                if isinstance(y, ast.Yield) and any(_is_bytes_test(t) and p == 'T' for t, p in q.guards(y)):
-                    n_out += 1
-                    v = y.value
-                    ok = isinstance(v, ast.Call) and isinstance(v.func, ast.Attribute) and v.func.attr == 'encode'
-                    ctx.ob(rule, f'{mod}:{qn}/out@{n_out}', ok, repo.loc(mod, y), 'yielded piece re-encoded', norm_src(y)[:80],
-                           witness="fnmatch(b'a', b'a|b', flags=SPLIT) must not mix str pieces into a bytes call")
-                elif isinstance(y, (ast.Yield, ast.YieldFrom)) and any(_is_bytes_test(t) and p == 'F' for t, p in q.guards(y)):
-                    ok = 'encode' not in norm_src(y) and 'decode' not in norm_src(y)
-                    ctx.ob(rule, f'{mod}:{qn}/str-path-untouched', ok, repo.loc(mod, y), 'no transcoding for str', norm_src(y)[:80])
+    BT = 'isinstance(self.pattern, bytes)'
+
+    def out_ok(v: Any, is_bytes: bool) -> bool:
+        if isinstance(v, (str, bytes)):
+            return isinstance(v, bytes) == is_bytes
+        t = _tag(v)
+        if is_bytes:
+            return t.endswith(".encode('latin-1')")
+        return '.encode(' not in t and '.decode(' not in t and "b'" not in t
+
+    def codecs_ok(p: Any) -> list[str]:
+        bad = []
+        for e in p.of('call'):
+            if e[1].endswith('.decode') or e[1].endswith('.encode'):
+                if e[2] != ['latin-1'] or e[3]:
+                    bad.append(f'{e[1][-30:]}({e[2]})')
+                if p.decisions.get(BT) is not True:
+                    bad.append(f'{e[1][-20:]} on the str path')
+        return bad
+
+    # ---- WcParse.parse: the returned regex
+    fi = repo.func(WP, 'WcParse.parse')
+    _ev, paths = api_table(repo, WP, 'WcParse.parse')
+    bad = []
+    for p in paths:
+        focus(p)
+        isb = p.decisions.get(BT)
+        n_out += 1
+        inner = "self.pattern.decode('latin-1')" if isb else 'self.pattern'
+        want = f"{WP}:WcParse._parse({inner})" + (".encode('latin-1')" if isb else '')
+        if isb is None or _tag(p.ret) != want:
+            bad.append(f'bytes={isb}: returns {_tag(p.ret)[:90]}')
+        bad += codecs_ok(p)
+    ctx.ob(rule, f'{WP}:WcParse.parse/out', not bad and len(paths) == 2, repo.loc(WP, fi.node),
+           "bytes: _parse(pattern.decode('latin-1')).encode('latin-1'); str: _parse(pattern)", f'{len(paths)} rows agree' if not bad else bad[0],
+           witness="fnmatch.translate(b'a') must return bytes regexes; fnmatch(b'\\xe9', b'[\\xe0-\\xff]') must be True")
+    # ---- WcSplit.split: the yielded pieces
+    fi = repo.func(WP, 'WcSplit.split')
+    _ev, paths = api_table(repo, WP, 'WcSplit.split')
+    bad = []
+    for p in paths:
+        focus(p)
+        isb = p.decisions.get(BT)
+        ys = p.of('yield')
+        n_out += len(ys)
+        if isb is None or len(ys) != 1:
+            bad.append(f'bytes={isb}: {len(ys)} yields')
+            continue
+        y = ys[0][1]
+        src = f"{WP}:WcSplit._split(" + ("self.pattern.decode('latin-1')" if isb else 'self.pattern') + ')'
+        if isb:
+            okv = _tag(y) == f"elem({src}).encode('latin-1')"
         else:
-            for c in walk_no_nested(fi.node):
-                if isinstance(c, ast.Call) and norm_src(c.func) in ('self.store', '_GlobPart') and c.args:
-                    a0 = c.args[0]
-                    n_out += 1
-                    ok = isinstance(a0, ast.IfExp) and norm_src(a0.test) == 'is_bytes' and \
-                        (('.encode(' in norm_src(a0.body)) or isinstance(a0.body, ast.Constant) and isinstance(a0.body.value, bytes)) and \
-                        '.encode(' not in norm_src(a0.orelse) and not (isinstance(a0.orelse, ast.Constant) and isinstance(a0.orelse.value, bytes))
-                    if isinstance(a0, ast.Name) and a0.id == 'gstar':
-                        ok = True  # assigned from the same is_bytes conditional two lines above; checked by R6
-                    ctx.ob(rule, f'{mod}:{qn}/out@{n_out}', ok, repo.loc(mod, c), '<bytes form> if is_bytes else <str form>', norm_src(a0)[:80],
-                           witness="glob(b'*') must build bytes segment patterns")
-    ctx.floor(rule, 'outgoing values', n_out, 9)
+            okv = (isinstance(y, tuple) and y[0] == 'from' and _tag(y[1]) == src) or _tag(y) == f'elem({src})'
+        if not okv:
+            bad.append(f'bytes={isb}: yields {_tag(y)[:90]}')
+        bad += codecs_ok(p)
+    ctx.ob(rule, f'{WP}:WcSplit.split/out', not bad and len(paths) == 2, repo.loc(WP, fi.node),
+           "bytes: each piece of _split(pattern.decode('latin-1')) re-encoded; str: the pieces of _split(pattern)", f'{len(paths)} rows agree' if not bad else bad[0],
+           witness="fnmatch(b'a', b'a|b', flags=SPLIT) must not mix str pieces into a bytes call")
+    # ---- _GlobSplit.split: every stored part
+    fi = repo.func('glob', '_GlobSplit.split')
+    sites = site_events(repo, 'glob', '_GlobSplit.split', lambda c: norm_src(c.func) in ('self.store', '_GlobPart'))
+    for k, (c0, hits) in enumerate(sites, 1):
+        bad = []
+        seen = set()
+        for p, e in hits:
+            focus(p)
+            isb = p.decisions.get(BT)
+            seen.add(isb)
+            b = e[2][0] if e[2] else e[3].get('value', e[3].get('pattern'))
+            if isb is None or not out_ok(b, isb):
+                bad.append(f'bytes={isb}: {_tag(b)[:80]}')
+            bad += codecs_ok(p)
+        n_out += 1
+        ctx.ob(rule, f'glob:_GlobSplit.split/out@{k}', not bad and seen == {True, False}, repo.loc('glob', c0),
+               "first argument: bytes constant or ….encode('latin-1') iff the pattern is bytes", f'{len(hits)} events agree' if not bad else sorted(set(bad))[0],
+               witness="glob(b'*') must build bytes segment patterns")
+    ctx.floor(rule, 'outgoing values', n_out, 6)
 
 
 def rule_type_checks(ctx: Ctx, rule: str) -> None:
@@ -333,4 +364,4 @@ def rule_literal_twins(ctx: Ctx, rule: str) -> None:
                     ok = e.orelse.value.encode('latin-1') == e.body.value
                     ctx.ob(rule, f'{fi.fq}/ifexp[{norm_src(e)[:50]}]', ok, repo.loc(m.name, e), 'latin-1 twins', norm_src(e)[:80],
                            witness='bytes and str inputs would be treated differently')
-    ctx.floor(rule, 'literal twin assignments', n, 18)
+    ctx.floor(rule, 'literal twin assignments', n, 10)
